@@ -16,6 +16,7 @@ import ast
 from typing import Any, Dict, List, Optional, Set, Tuple
 
 from mtsa import taint as T
+from mtsa.absint import K as K_, R as R_
 from mtsa.cfg import CFG, _is_catch_all
 from mtsa.index import FunctionInfo, Repo, calls_in, dotted, norm, walk_no_nested
 from mtsa.report import AnalysisError, Ctx
@@ -506,11 +507,12 @@ def rule_restore_flush(ctx: Ctx, repo: Repo) -> None:
     ctx.check(any(norm(d) in ("contextmanager", "contextlib.contextmanager") for d in tc.node.decorator_list), "R-C03.3", tc.fq,
               "trace_calls is a context manager", construct=str(tc.decorators()))
     # trace() returns trace_calls(...) unchanged; run_handler uses it in a with statement
-    tr = repo.fn("monkeytype", "trace")
-    ctx.functions.add(tr.fq)
-    rets = returns_of(tr)
-    ctx.check(len(rets) == 1 and is_call_to(rets[0][1], "trace_calls"), "R-C03.3", tr.fq,
-              "monkeytype.trace returns the trace_calls context manager unchanged", construct="; ".join(norm(n.ast) for n, _ in rets))
+    from . import glue_model as GM
+    for gl in GM.trace_glue(repo):
+        ctx.functions.add(gl.fi.fq)
+        ctx.check(len(gl.calls) == 1 and gl.result == R_("trace_calls_context", n=K_(1)), "R-C03.3", gl.fi.fq,
+                  "monkeytype.trace returns the trace_calls context manager unchanged",
+                  construct=f"{'given' if gl.given else 'default'} configuration: {len(gl.calls)} trace_calls call(s), returns {gl.result}")
     rule_run_handler(ctx, repo)
 
 
